@@ -34,7 +34,7 @@ def run(check: Check, world_spec, monitor_spec, K: int, H: int, needs: Sequence[
     for k, v in sorted(res.cov.items()):
         matrix[f"{name}:{k}"] = matrix.get(f"{name}:{k}", 0) + v
     for cell in needs:
-        if res.cov.get(cell, 0) == 0:
+        if not any(res.cov.get(alt, 0) > 0 for alt in cell.split("|")):
             check.vacuous.append(f"{name}:{cell}")
     if res.cov.get("CAPPED"):
         check.notes.append(f"{name}: exploration capped before the horizon (max_states / deadline); not exhaustive")
